@@ -370,7 +370,7 @@ class Metric:
                 raise ValueError('Could not find a tatum to determine the metric, use a composite rhythm')
             nb_tatums = int(nb_tatums)
 
-            if note.is_note:
+            if note.is_note or note.type in ["x", "d"]:
                 array += [1] + [0] * (nb_tatums - 1)
             else:
                 array += [0] + [0] * (nb_tatums - 1)
